@@ -1,6 +1,10 @@
 use num_traits::{One, PrimInt, Zero};
 
 pub fn primitive_root(prime: u64) -> Option<u64> {
+    // 2 is the only prime whose primitive root (1) lies outside the range searched below
+    if prime == 2 {
+        return Some(1);
+    }
     let test_exponents: Vec<u64> = distinct_prime_factors(prime - 1)
         .iter()
         .map(|factor| (prime - 1) / factor)
